@@ -77,6 +77,9 @@ func init() {
 	mutant(&Mutant{Name: "c10-path-limit-removed", Property: "C10", File: "svg/pathdata.go",
 		Old: "\tif 100000 < len(b) {\n\t\t// prevent extremely long paths for being too costly (OSS-Fuzz)\n\t\treturn b\n\t}\n", New: "",
 		Rule: "R10.2", Construct: "ShortenPathData"})
+	mutant(&Mutant{Name: "c10-comma-helper-copies-accumulator", Property: "C10", File: "js/util.go",
+		Old: "\tif comma2, ok := y.(*js.CommaExpr); ok {\n\t\tcomma.List = append(comma.List, comma2.List...)\n", New: "\tcomma = &js.CommaExpr{List: append([]js.IExpr{}, comma.List...)}\n\tif comma2, ok := y.(*js.CommaExpr); ok {\n\t\tcomma.List = append(comma.List, comma2.List...)\n",
+		Rule: "R10.17", Construct: "commaExpr extends its first argument in place"})
 	mutant(&Mutant{Name: "c10-merge-limit-inverted", Property: "C10", File: "js/util.go",
 		Old: "\t\t\t\tif 50 < len(strings) {\n\t\t\t\t\treturn // limit recursion\n\t\t\t\t}\n", New: "\t\t\t\tif len(strings) < 0 {\n\t\t\t\t\treturn // limit recursion\n\t\t\t\t}\n",
 		Rule: "R10.2", Construct: "mergeBinaryExpr"})
@@ -96,6 +99,8 @@ func runC10(c *Ctx) {
 	c.r1013()
 	c.r1014()
 	c.r1015()
+	c.r128("R10.16")
+	c.r1017()
 	// a look-ahead past the end of the input must not index past the token buffer (clause (e) of the token buffer rules)
 	c.alsoUnder(map[string]string{"R03.5": "R10.10", "R05.12": "R10.10", "R06.8": "R10.10"}, func(construct string) bool {
 		return strings.Contains(construct, "index clamped") || strings.Contains(construct, "early ends of the read loop")
